@@ -83,14 +83,19 @@ template <class T>
 IMATH_HOSTDEVICE constexpr inline int
 cmp (T a, T b) IMATH_NOEXCEPT
 {
-    return IMATH_INTERNAL_NAMESPACE::sign (a - b);
+    //
+    // Compare, do not subtract: a - b wraps for unsigned types
+    // (cmp (0u, 1u)) and overflows for int (cmp (INT_MAX, -1)).
+    //
+
+    return (a > b) ? 1 : ((a < b) ? -1 : 0);
 }
 
 template <class T>
 IMATH_HOSTDEVICE constexpr inline int
 cmpt (T a, T b, T t) IMATH_NOEXCEPT
 {
-    return (IMATH_INTERNAL_NAMESPACE::abs (a - b) <= t) ? 0 : cmp (a, b);
+    return (((a > b) ? a - b : b - a) <= t) ? 0 : cmp (a, b);
 }
 
 template <class T>
